@@ -268,4 +268,137 @@ class ToNumpy(Contract):
         raise U("tonumpy of this operand", node)
 
 
-CONTRACTS = [AsPolynomial(), Lead("coefficient"), Lead("exponent"), IsConstant(), ToNumpy()]
+class Decompose(Contract):
+    name = "numpoly.decompose"
+    relpath = "numpoly/poly_function/decompose.py"
+    func = "decompose"
+    properties = ("C19",)
+    assumptions = ("B6 (stacking whole elements); B12: a polynomial is the sum of its terms (definition of the abstract view)",)
+
+    def cases(self):
+        def make_env(ex):
+            from contracts.baseclass import own_poly
+            P = own_poly(ex, "poly", allocation=False)
+            ex.P = P
+            return {"poly": P}
+
+        def check(out):
+            from engine.polymodel import prepend, NamesV
+            from engine import values as V
+            ex, ctx = out.ex, out.ctx
+            P = ex.P
+            ex.oblige(f"raises.nothing[{out.exc}:{out.value}]" if out.kind == "raise" else "raises.nothing", z3.BoolVal(out.kind == "return"), "post")
+            if out.kind != "return":
+                return
+            r = out.value
+            pcs = getattr(r, "pieces", None)
+            ok = isinstance(r, Poly) and pcs is not None
+            ex.oblige("post.stack_of_one_array_per_term", z3.BoolVal(ok), "post")
+            if not ok:
+                return
+            ex.oblige("post.shape_is_N_plus_operand_shape", r.shape == prepend(P.N, P.shape), "post")
+            t0 = ctx.int("t")                        # an arbitrary term
+            ctx.assume(z3.And(0 <= t0, t0 < P.N))
+            src = pcs["link"](t0)
+            fa = getattr(src, "from_attrs", None)
+            okf = fa is not None
+            ex.oblige("post.slice_t_is_built_from_attributes", z3.BoolVal(okf), "post")
+            if not okf:
+                return
+            E, C = fa["E"], fa["C"]
+            Cs = V.as_seq(ex, C)
+            ex.oblige("post.slice_t_has_the_single_term_t", z3.And(E.n == 1, E.D == P.D, E.row(0) == P.row(t0), Cs.n == 1,
+                                                                  Cs.item(z3.IntVal(0)).shape == P.shape, ctx.forall_idx(
+                lambda i: Cs.item(z3.IntVal(0)).elem(i) == P.C(t0, i), P.shape)), "post",
+                note="for an arbitrary t: slice t is the monomial term t (its exponent row, its coefficient) and nothing else")
+            ex.oblige("post.slice_t_keeps_term_and_names", z3.BoolVal(fa["rc"] is True and fa["rn"] is True), "post")
+            nm = fa["names"]
+            ex.oblige("post.slice_t_has_the_operand_names", z3.BoolVal(
+                (isinstance(nm, Poly) and getattr(nm, "indeterminants_of", None) is P) or (isinstance(nm, NamesV) and nm.term is P.names)), "post")
+        yield Case("", make_env, check)
+
+    def apply(self, ex, args, kw, node):
+        raise U("decompose as a callee", node)
+
+
+class SetDimensionsDown(Contract):
+    """set_dimensions(poly, k) with k <= number of indeterminates: the trailing indeterminates are dropped TOGETHER WITH every
+    term that involves one of them; k equal to the number of indeterminates returns the polynomial itself.
+    (Adding indeterminates - a while loop over generated names - is outside this proof: bounded check.)"""
+    name = "numpoly.set_dimensions"
+    relpath = "numpoly/poly_function/set_dimensions.py"
+    func = "set_dimensions"
+    properties = ("C19", "C12")
+    positional = ("poly", "dimensions")
+
+    def cases(self):
+        for label in ("fewer", "equal"):
+            def make_env(ex, label=label):
+                from contracts.baseclass import own_poly
+                from engine.sortmodel import meq
+                P = own_poly(ex, "poly")
+                ex.P = P
+                k = ex.ctx.int("dimensions")
+                ex.ctx.assume(z3.And(1 <= k, k < P.D) if label == "fewer" else k == P.D)
+                ex.k = k
+                ex.pair_hints = [lambda t, s: meq(ex.dup_matrix.row(t), ex.dup_matrix.row(s), P.D)]
+                return {"poly": P, "dimensions": k}
+
+            def check(out, label=label):
+                from engine.polymodel import NamesV, nat, nlen, DTypeV
+                from engine.logic import expo
+                from engine import values as V
+                ex, ctx = out.ex, out.ctx
+                P, k = ex.P, ex.k
+                ex.oblige(f"raises.nothing[{out.exc}:{out.value}]" if out.kind == "raise" else "raises.nothing", z3.BoolVal(out.kind == "return"), "post")
+                if out.kind != "return":
+                    return
+                r = out.value
+                if label == "equal":
+                    ex.oblige("post.unchanged_for_the_same_number_of_indeterminates", z3.BoolVal(r is P), "post")
+                    return
+                fa = getattr(r, "from_attrs", None)
+                ok = isinstance(r, Poly) and fa is not None
+                ex.oblige("post.built_from_attributes", z3.BoolVal(ok), "post")
+                if not ok:
+                    return
+                involved = lambda t: z3.Not(ctx.forall_range(k, P.D, lambda d: expo(P.row(t), d) == 0))
+                E, C = fa["E"], fa["C"]
+                nm = fa["names"]
+                okn = isinstance(nm, NamesV)
+                ex.oblige("post.names_are_the_first_k_names", z3.And(nlen(nm.term) == k, ctx.forall_range(
+                    0, k, lambda d: nat(nm.term, d) == nat(P.names, d))) if okn else z3.BoolVal(False), "post")
+                ex.oblige("post.names_not_pruned", z3.BoolVal(fa["rn"] is True), "post")
+                ex.oblige("post.dtype_kept", (fa["dtype"].term == P.dtype) if isinstance(fa["dtype"], DTypeV) else z3.BoolVal(False), "post")
+                if isinstance(C, list):
+                    okz = len(C) == 1 and isinstance(C[0], Arr)
+                    ex.oblige("post.zero.single_zero_term", z3.BoolVal(okz), "post")
+                    if okz:
+                        ex.oblige("post.zero.every_term_involves_a_dropped_indeterminate", ctx.forall_range(0, P.N, involved), "post",
+                                  note="the zero polynomial only when nothing survives")
+                        from engine.logic import mzero
+                        ex.oblige("post.zero.row_and_coefficient", z3.And(E.n == 1, E.D == k, mzero(E.row(0), k), C[0].shape == P.shape,
+                                                                         ctx.forall_idx(lambda i: C[0].elem(i) == 0, P.shape)), "post")
+                    return
+                s = getattr(C, "selection", None)
+                oks = s is not None
+                ex.oblige("post.terms.selection_of_the_operand_terms", z3.BoolVal(oks), "post")
+                if not oks:
+                    return
+                Cs = V.as_seq(ex, C)
+                M, sel, selidx = s.M, s.sel, s.selidx
+                ex.oblige("post.terms.one_row_per_coefficient", z3.And(E.n == M, Cs.n == M, E.D == k), "post")
+                ex.oblige("post.terms.only_terms_free_of_the_dropped_indeterminates", ctx.forall_range(0, M, lambda j: z3.And(
+                    0 <= sel(j), sel(j) < P.N, z3.Not(involved(sel(j))))), "post")
+                ex.oblige("post.terms.every_term_free_of_the_dropped_indeterminates", ctx.forall_range(0, P.N, lambda t: z3.Implies(
+                    z3.Not(involved(t)), z3.And(0 <= selidx(t), selidx(t) < M, sel(selidx(t)) == t))), "post")
+                ex.oblige("post.terms.exponents_of_the_kept_indeterminates_and_coefficients_unchanged", ctx.forall_range(0, M, lambda j: z3.And(
+                    ctx.forall_range(0, k, lambda d: expo(E.row(j), d) == expo(P.row(sel(j)), d)),
+                    Cs.item(j).shape == P.shape, ctx.forall_idx(lambda i: Cs.item(j).elem(i) == P.C(sel(j), i), P.shape))), "post")
+            yield Case(label, make_env, check)
+
+    def apply(self, ex, args, kw, node):
+        raise U("set_dimensions as a callee", node)
+
+
+CONTRACTS = [AsPolynomial(), Lead("coefficient"), Lead("exponent"), IsConstant(), ToNumpy(), Decompose(), SetDimensionsDown()]
